@@ -816,8 +816,6 @@ def replay(path):
             c19_step.seg_key(segs[0]) == c19_step.seg_key(segs[1])
         out = {"variant": r.get("variant"), "segments": segs, "cases": r["cases"], "equal": same, "dumps": [da, db]}
         if not same and len(segs) == 2:
-            t2 = dict(t)
-            t2["_lines"] = pair
             out["first_divergence"] = c19_step.divergence_from_dumps(os.path.realpath(SO()), da, db)
         print(json.dumps(out, indent=1))
         return 0 if same else 1
